@@ -2,6 +2,7 @@ package props
 
 import (
 	"fmt"
+	"reflect"
 	"testing"
 
 	"github.com/skx/evalfilter/v2/ast"
@@ -73,7 +74,16 @@ func valuelessOperand(script string) bool {
 				}
 			}
 			if !good {
-				found = true
+				// The open finding: "x ++" where x is the tail of a larger
+				// statement ("y = - x ++;"): the statement in front holds the
+				// very identifier token the operator was written after. If that
+				// token is in no statement at all, something else swallowed it
+				// (as before fix 68c6dcc): not excused.
+				if i > 0 && holdsToken(reflect.ValueOf(ss[i-1]), pf.Token, 0) {
+					found = true
+				} else {
+					repaired = true
+				}
 			}
 		}
 	}
@@ -162,6 +172,46 @@ func valuelessOperand(script string) bool {
 	}
 	walk(prog)
 	return found && !repaired
+}
+
+// holdsToken reports whether the AST below v contains the given token
+// (same type, text and position).
+func holdsToken(v reflect.Value, tk token.Token, depth int) bool {
+	if depth > 200 || !v.IsValid() {
+		return false
+	}
+	switch v.Kind() {
+	case reflect.Ptr, reflect.Interface:
+		if v.IsNil() {
+			return false
+		}
+		return holdsToken(v.Elem(), tk, depth+1)
+	case reflect.Struct:
+		if t, ok := v.Interface().(token.Token); ok {
+			return t.Type == tk.Type && t.Literal == tk.Literal && t.Line == tk.Line && t.Column == tk.Column
+		}
+		for i := 0; i < v.NumField(); i++ {
+			if v.Type().Field(i).PkgPath != "" {
+				continue
+			}
+			if holdsToken(v.Field(i), tk, depth+1) {
+				return true
+			}
+		}
+	case reflect.Slice, reflect.Array:
+		for i := 0; i < v.Len(); i++ {
+			if holdsToken(v.Index(i), tk, depth+1) {
+				return true
+			}
+		}
+	case reflect.Map:
+		for _, k := range v.MapKeys() {
+			if holdsToken(k, tk, depth+1) || holdsToken(v.MapIndex(k), tk, depth+1) {
+				return true
+			}
+		}
+	}
+	return false
 }
 
 func isNilNode(n ast.Node) bool {
